@@ -459,6 +459,140 @@ func run(c *kit.Ctx, i int, name string, mu *sync.Mutex, schedules map[string]bo
 	}
 }
 
+// ---- bounded-preemption enumeration: deterministic two-intruder races against one victim ----
+
+// runPreempt enumerates plans "victim runs k1 calls, intruder 1 runs to completion, victim runs
+// k2 more calls, intruder 2 runs to completion, victim finishes, everybody else finishes" over a
+// grid of (k1, k2), for every victim among the XRD controllers and the claim controller and every
+// ordered pair of intruders. Unlike the seeded random walks this reaches a given check-then-act
+// window by construction.
+func runPreempt(c *kit.Ctx) {
+	actors := []string{"definition", "offered", "claim", "xr", "gcdriver"}
+	victims := []string{"definition", "offered", "claim"}
+	setups := []string{"xrd-deleted-background", "xrd-deleted-foreground", "claim-and-xrd-deleted"}
+	k1max, k1step, k2max, k2step := 36, 3, 12, 6
+	if c.Thorough() {
+		k1max, k1step, k2max, k2step = 48, 1, 18, 3
+	}
+	type job struct {
+		setup, victim, i1, i2 string
+		k1, k2                int
+	}
+	var jobs []job
+	for _, su := range setups {
+		for _, v := range victims {
+			for _, i1 := range actors {
+				for _, i2 := range actors {
+					if i1 == v || i2 == v || i1 == i2 {
+						continue
+					}
+					if !c.Thorough() && i1 != "claim" && i1 != "xr" && i2 != "claim" && i2 != "xr" {
+						continue
+					}
+					for k1 := 0; k1 <= k1max; k1 += k1step {
+						for k2 := 0; k2 <= k2max; k2 += k2step {
+							jobs = append(jobs, job{su, v, i1, i2, k1, k2})
+						}
+					}
+				}
+			}
+		}
+	}
+	var mu sync.Mutex
+	var wg sync.WaitGroup
+	sem := make(chan struct{}, 10)
+	for ji, j := range jobs {
+		name := fmt.Sprintf("preempt/%s/%s/%s-%s/k%d-%d", j.setup, j.victim, j.i1, j.i2, j.k1, j.k2)
+		if !c.Want(name) {
+			continue
+		}
+		wg.Add(1)
+		sem <- struct{}{}
+		go func(ji int, j job, name string) {
+			defer wg.Done()
+			defer func() { <-sem }()
+			err := kit.Try(func() {
+				e := newEnv(uint64(c.Seed)*211+uint64(ji), ji%2 == 1)
+				w := e.w
+				w.MustSeed("user", xrk.ClaimObject("ex.org/v1", "Thing", "ns1", "c0", map[string]any{"compositionRef": map[string]any{"name": "comp"}}))
+				e.settle(4)
+				user := w.Client("user")
+				m := newMonitor()
+				m.running[ctlComposite] = e.defEng.IsRunning(ctlComposite)
+				m.running[ctlClaim] = e.offEng.IsRunning(ctlClaim)
+				w.AddHook(m.hook)
+				from := w.LogLen()
+				pol := metav1.DeletePropagationBackground
+				if j.setup == "xrd-deleted-foreground" {
+					pol = metav1.DeletePropagationForeground
+				}
+				if j.setup == "claim-and-xrd-deleted" {
+					for _, cm := range w.ListObjs(claimGK) {
+						_ = user.Delete(ctx, &unstructured.Unstructured{Object: cm})
+					}
+				}
+				_ = user.Delete(ctx, &unstructured.Unstructured{Object: w.GetObj(xrdKey)}, client.PropagationPolicy(pol))
+				s := w.NewScheduler()
+				loops := 4
+				s.Go("definition", func() {
+					for k := 0; k < loops; k++ {
+						_, _ = e.defR.Reconcile(ctx, xrdReq)
+					}
+				})
+				s.Go("offered", func() {
+					for k := 0; k < loops; k++ {
+						_, _ = e.offR.Reconcile(ctx, xrdReq)
+					}
+				})
+				s.Go("claim", func() {
+					for k := 0; k < 2; k++ {
+						e.reconcileClaims()
+					}
+				})
+				s.Go("xr", func() {
+					for k := 0; k < 2; k++ {
+						e.reconcileXRs()
+					}
+				})
+				gcC := w.Client("gcdriver")
+				s.Go("gcdriver", func() {
+					for k := 0; k < 6; k++ {
+						_ = gcC.Get(ctx, types.NamespacedName{Name: "tick"}, &unstructured.Unstructured{Object: map[string]any{"apiVersion": "v1", "kind": "ConfigMap"}})
+						if p := w.GCPending(); len(p) > 0 {
+							_ = w.GCDo(p[0])
+						}
+					}
+				})
+				plan := []sim.Segment{{Actor: j.victim, Steps: j.k1}, {Actor: j.i1, Steps: -1}, {Actor: j.victim, Steps: j.k2}, {Actor: j.i2, Steps: -1}, {Actor: j.victim, Steps: -1}}
+				sched := s.Run(sim.PlanChooser(plan), 20000)
+				w.SetScheduler(nil)
+				e.settle(6)
+				mu.Lock()
+				defer mu.Unlock()
+				c.Eval(name, true)
+				c.Count("preemption_plans", 1)
+				c.Count("monitor_evaluations", int64(m.checks))
+				for k, key := range m.keys {
+					var evs []string
+					for _, e2 := range w.Log(from) {
+						if e2.IsWrite() || e2.Verb == "mark" {
+							evs = append(evs, e2.Short())
+						}
+						if len(evs) > 150 {
+							break
+						}
+					}
+					c.Violate(key, name, m.whats[k], map[string]any{"plan": name, "schedule_len": len(sched), "order": m.order, "trace": evs})
+				}
+			})
+			if err != nil {
+				c.Violate("panic", name, err.Error(), nil)
+			}
+		}(ji, j, name)
+	}
+	wg.Wait()
+}
+
 // ---- part B: a deleted package revision leaves the dependency Lock before it is finalized ----
 
 const finRevision = "revision.pkg.crossplane.io"
@@ -664,6 +798,7 @@ func main() {
 	}
 	wg.Wait()
 	c.Count("distinct_schedules", int64(len(schedules)))
+	runPreempt(c)
 	if err := kit.Try(func() { runRevisionLock(c) }); err != nil {
 		c.Violate("panic:revision-lock", "revlock", err.Error(), nil)
 	}
